@@ -58,3 +58,4 @@ void coro_tsan_release(void *addr);            // happens-before edges the plan 
 void coro_tsan_acquire(void *addr);
 void coro_tsan_ignore(bool on);                // fork child phase: its memory accesses belong to another process
 bool coro_selftest();
+void coro_raw_copy(void *dst, const void *src, size_t n);  // uninstrumented copy (sanitizer redzones included)
